@@ -339,6 +339,158 @@ Section BackfillProofs.
         apply Z.leb_gt in Hz. lia.
   Qed.
 
+
+  (* ---------- which copy of an event is returned ---------- *)
+  (* the event of a load result that RequestBackfill takes: no error, or a signature error only *)
+  Definition is_taken (p : option event * lclass) : option event :=
+    match p with (Some e, LOk) | (Some e, LSig) => Some e | _ => None end.
+
+  Lemma take_results_step p rs have result :
+    take_results (p :: rs) have result =
+    match is_taken p with
+    | Some e => if mem_N (eid e) have then take_results rs have result
+                else take_results rs (eid e :: have) (result ++ [e])
+    | None => take_results rs have result
+    end.
+  Proof. destruct p as [[e|] []]; reflexivity. Qed.
+
+  Lemma take_results_app : forall r1 r2 have result,
+    take_results (r1 ++ r2) have result =
+    take_results r2 (fst (take_results r1 have result)) (snd (take_results r1 have result)).
+  Proof.
+    induction r1 as [|p r1 IH]; intros r2 have result; [reflexivity|].
+    rewrite <- app_comm_cons, !take_results_step.
+    destruct (is_taken p) as [e|]; auto. destruct (mem_N (eid e) have); auto.
+  Qed.
+
+  (* e is the first takeable copy of its event ID in rs, and that ID was not obtained before *)
+  Definition first_good_copy (rs : list (option event * lclass)) (have : list N) (e : event) : Prop :=
+    exists l1 p l2, rs = l1 ++ p :: l2 /\ is_taken p = Some e /\ ~ In (eid e) have /\
+      forall p' e', In p' l1 -> is_taken p' = Some e' -> eid e' <> eid e.
+
+  Lemma fgc_cons_other p rs have e :
+    (forall e0, is_taken p = Some e0 -> eid e0 <> eid e) ->
+    first_good_copy rs have e -> first_good_copy (p :: rs) have e.
+  Proof.
+    intros Hp (l1 & q & l2 & -> & Hq & Hn & Hf). exists (p :: l1), q, l2.
+    split; [reflexivity|]. split; auto. split; auto.
+    intros p' e' [<-|Hin] Ht; eauto.
+  Qed.
+
+  Lemma fgc_cons_inv p rs have e :
+    first_good_copy (p :: rs) have e ->
+    (is_taken p = Some e /\ ~ In (eid e) have) \/
+    ((forall e0, is_taken p = Some e0 -> eid e0 <> eid e) /\ first_good_copy rs have e).
+  Proof.
+    intros (l1 & q & l2 & Heq & Hq & Hn & Hf). destruct l1 as [|p0 l1]; simpl in Heq.
+    - injection Heq as <- <-. left. auto.
+    - injection Heq as <- ->. right. split.
+      + intros e0 He0. apply (Hf p e0); auto. now left.
+      + exists l1, q, l2. split; auto. split; auto. split; auto.
+        intros p' e' Hin. apply Hf. now right.
+  Qed.
+
+  Lemma mem_N_true_c14 x l : mem_N x l = true -> In x l.
+  Proof.
+    induction l as [|y l IH]; simpl; [discriminate|].
+    intros H. apply orb_true_iff in H. destruct H as [H|H]; [left; apply N.eqb_eq in H; auto | right; auto].
+  Qed.
+
+  Lemma fgc_weaken rs have x e : first_good_copy rs (x :: have) e -> first_good_copy rs have e.
+  Proof.
+    intros (l1 & q & l2 & H1 & H2 & H3 & H4). exists l1, q, l2. repeat split; auto.
+    intros Hin. apply H3. now right.
+  Qed.
+
+  Lemma fgc_strengthen rs have x e :
+    x <> eid e -> first_good_copy rs have e -> first_good_copy rs (x :: have) e.
+  Proof.
+    intros Hx (l1 & q & l2 & H1 & H2 & H3 & H4). exists l1, q, l2. repeat split; auto.
+    intros [Hin|Hin]; auto.
+  Qed.
+
+  Lemma take_results_in : forall rs have result e,
+    In e (snd (take_results rs have result)) <-> In e result \/ first_good_copy rs have e.
+  Proof.
+    induction rs as [|p rs IH]; intros have result e.
+    - simpl. split; [auto|]. intros [H|(l1 & q & l2 & H & _)]; auto.
+      exfalso. destruct l1; discriminate.
+    - rewrite take_results_step. destruct (is_taken p) as [e0|] eqn:Hp.
+      + destruct (mem_N (eid e0) have) eqn:Hm.
+        * apply mem_N_true_c14 in Hm. rewrite IH. split; intros [H|H]; auto; right.
+          -- apply fgc_cons_other; auto. intros e1 He1 Heq. rewrite Hp in He1. injection He1 as <-.
+             destruct H as (_ & q & _ & _ & _ & Hn & _). apply Hn. now rewrite <- Heq.
+          -- apply fgc_cons_inv in H. destruct H as [[H1 H2]|[_ H]]; auto.
+             rewrite Hp in H1. injection H1 as ->. contradiction.
+        * apply mem_N_false_c14 in Hm. rewrite IH, in_app_iff. simpl. split.
+          -- intros [[H|[<-|[]]]|H]; auto.
+             ++ right. exists [], p, rs. repeat split; auto; intros p' e' [].
+             ++ right. apply fgc_cons_other.
+                ** intros e1 He1. rewrite Hp in He1. injection He1 as <-.
+                   destruct H as (_ & q & _ & _ & _ & Hn & _). intros Heq. apply Hn. left. auto.
+                ** eapply fgc_weaken; eauto.
+          -- intros [H|H]; auto. apply fgc_cons_inv in H. destruct H as [[H1 H2]|[H1 H]].
+             ++ rewrite Hp in H1. injection H1 as ->. left. right. now left.
+             ++ right. apply fgc_strengthen; auto.
+      + rewrite IH. split; intros [H|H]; auto; right.
+        * apply fgc_cons_other; auto. intros e0 He0. congruence.
+        * apply fgc_cons_inv in H. destruct H as [[H1 _]|[_ H]]; auto. congruence.
+  Qed.
+
+  (* the load results of the servers that are asked, in server order (a mirror of bf_loop that
+     only records them) *)
+  Fixpoint bf_answers (fuel gfuel : nat) (vk : bool) (limit : Z) (servers : list N)
+           (have : list N) (result : list event) (ps : PS) : list (list (option event * lclass)) :=
+    match servers with
+    | [] => []
+    | s :: rest =>
+        if (limit <=? Z.of_nat (length result))%Z then [] else
+        match backfill ps s with
+        | (ps1, None) => bf_answers fuel gfuel vk limit rest have result ps1
+        | (ps1, Some pdus) =>
+            match load_and_verify PS sig_ok allowed pcall sp_ids sp_state topo fuel gfuel vk pdus ps1 with
+            | (LoadOutOfFuel, _) => []
+            | (LoadErr, ps2) => bf_answers fuel gfuel vk limit rest have result ps2
+            | (LoadResults rs, ps2) =>
+                let '(have', result') := take_results rs have result in
+                rs :: bf_answers fuel gfuel vk limit rest have' result' ps2
+            end
+        end
+    end.
+
+  Lemma bf_loop_answers fuel gfuel vk limit : forall servers have result lastErr ps evs le ps',
+    bf_loop PS sig_ok allowed pcall sp_ids sp_state topo backfill fuel gfuel vk limit servers
+            have result lastErr ps = (BfResult evs le, ps') ->
+    evs = snd (take_results (concat (bf_answers fuel gfuel vk limit servers have result ps)) have result).
+  Proof.
+    induction servers as [|s rest IH]; intros have result lastErr ps evs le ps'; simpl.
+    - intros [= <- <- <-]. reflexivity.
+    - destruct (Z.leb limit (Z.of_nat (length result))).
+      + intros [= <- <- <-]. reflexivity.
+      + destruct (backfill ps s) as [ps1 [pdus|]]; [|apply IH].
+        destruct (load_and_verify _ _ _ _ _ _ _ _ _ _ pdus ps1) as [[rs| |] ps2]; try discriminate.
+        * destruct (take_results rs have result) as [have' result'] eqn:Ht.
+          intros H. simpl. rewrite take_results_app, Ht. simpl. eapply IH; eauto.
+        * apply IH.
+  Qed.
+
+  (* An event is returned iff it is, in the sequence of load results of the servers asked (in
+     server order), the FIRST copy of its event ID that is classified "no error" or "signature
+     error only": a rejected or unloadable copy from an earlier server does not shadow it, and a
+     later copy never replaces it. *)
+  Theorem backfill_first_good_copy fuel gfuel vk first rest limit ps evs le ps' :
+    request_backfill PS sig_ok allowed pcall sp_ids sp_state topo servers_at backfill
+                     fuel gfuel vk (first :: rest) limit ps = (BfResult evs le, ps') ->
+    let ps1 := fst (servers_at ps first) in
+    let servers := snd (servers_at ps first) in
+    forall e, In e evs <->
+      first_good_copy (concat (bf_answers fuel gfuel vk limit servers [] [] ps1)) [] e.
+  Proof.
+    unfold request_backfill. destruct (servers_at ps first) as [ps1 servers]. simpl.
+    intros H e. rewrite (bf_loop_answers _ _ _ _ _ _ _ _ _ _ _ _ H), take_results_in.
+    split; [intros [[]|H0]; auto | auto].
+  Qed.
+
   (* the events RequestBackfill returns carry pairwise different IDs; without starting points
      nothing is asked and nothing is returned *)
   Theorem backfill_unique_ids fuel gfuel vk from_ids limit ps evs le ps' :
